@@ -281,6 +281,49 @@ async def listed_subsets():
     return res
 
 
+async def observed_start():
+    """someone looks while start() is at work (a polling task; on a four-port bridge start() yields between the ports): whenever the bridge
+    says it is running, every configured port is held"""
+    res = []
+    for n in (3, 4, 4):
+        ports = world.free_udp_ports(n); b = SwitcherBridge(lambda d: None, list(ports)); seen = []; done = [False]
+        async def watch():
+            while not done[0]:
+                if b.is_running and any(can_bind(p) for p in ports): seen.append("running with a configured port not held")
+                await asyncio.sleep(0)
+        t = asyncio.ensure_future(watch()); await asyncio.sleep(0)
+        try: await asyncio.wait_for(b.start(), PATIENCE)
+        except Exception as e: seen.append("start raised " + type(e).__name__)
+        done[0] = True; await t; await settle()
+        res.append("%d ports: %s" % (n, seen[0] if seen else "never running before every port was held") + "; afterwards running=%s" % b.is_running)
+        try: await asyncio.wait_for(b.stop(), PATIENCE)
+        except Exception: pass
+        await settle()
+    return res
+
+
+async def coroutine_callback():
+    """a callback that is a coroutine function (a mistake, or a newer calling convention): whatever the bridge does with what it returns,
+    nothing of the user's runs after stop() has returned"""
+    import warnings
+    res = []
+    for cycles in (0, 1, 3):
+        ports = world.free_udp_ports(1); ran = []; stopped = [False]
+        async def on_device(dev):
+            ran.append("after stop" if stopped[0] else "before stop")
+            await asyncio.sleep(0.01); ran.append("after stop" if stopped[0] else "before stop")
+        with warnings.catch_warnings():
+            warnings.simplefilter("ignore")          # 'coroutine ... was never awaited' is what the unchanged library leads to
+            b = SwitcherBridge(on_device, list(ports)); await b.start()
+            tx = socket.socket(socket.AF_INET, socket.SOCK_DGRAM)
+            for _ in range(3): tx.sendto(valid_datagram(), ("127.0.0.1", ports[0]))
+            for _ in range(cycles): await asyncio.sleep(0.001)
+            await b.stop(); stopped[0] = True; tx.close()
+            await asyncio.sleep(0.05); import gc; gc.collect()
+        res.append("%d of the user's code steps ran after stop() had returned" % ran.count("after stop"))
+    return res
+
+
 async def bad_port_list():
     """a configured port no socket can take (a typo such as 200003): start raises something, and nothing is left listening"""
     res = []
@@ -341,6 +384,12 @@ def run(tier, rnd, out):
                              lambda c: "SwitcherBridge(callback, %s): start, stop, start, stop" % c["ports"])
         finally: world.release_well_known_ports()
     else: out.notes.append("the library's default ports were not available on this machine for a minute: stream a-bridge-constructed-without-a-port-list not run")
+    got = asyncio.run(observed_start())
+    lib.differential(out, "start-observed-by-a-polling-task", [{"ports": n} for n in (3, 4, 4)], got, None,
+                     ["%d ports: never running before every port was held; afterwards running=True" % n for n in (3, 4, 4)], lambda c: "a task polls is_running while start() opens %d ports" % c["ports"])
+    got = asyncio.run(coroutine_callback())
+    lib.differential(out, "a-coroutine-function-as-callback", [{"loop_cycles_before_stop": k} for k in (0, 1, 3)], got, None,
+                     ["0 of the user's code steps ran after stop() had returned"] * 3, lambda c: "async def callback, three broadcasts, %d ms, stop()" % c["loop_cycles_before_stop"])
     got = asyncio.run(bad_port_list())
     lib.differential(out, "port-list-with-an-impossible-port", [{"ports": "two free ports and 200003"}, {"ports": "two free ports and -1"}], got, None,
                      ["start raised; running=False; first ports free=True"] * 2, lambda c: "start() on %s" % c["ports"])
@@ -354,3 +403,6 @@ def run(tier, rnd, out):
 def replay(rp, out):
     c = rp["input"]
     if "acts" in c: run_sequences(out, rp.get("stream", "replay"), c["ports"], [[tuple(a) for a in c["acts"]]], via_context="context-manager" in (rp.get("stream") or ""))
+    else:           # the small fixed streams (default ports, listed subsets, observed start, coroutine callback, ...): the quick run is the replay
+        import random
+        run("quick", random.Random(int(rp.get("seed", 1))), out)
